@@ -64,7 +64,14 @@ func init() {
 		Rule:       "adversarial cases rich in forged / twisted NEW_VIEWs and bare PREPREPAREs; every PREPARE sent and every proposal stored by a correct node in a view above 0 is judged against the reference NEW_VIEW validator; non-trivial = at least one such act was judged",
 		Floors:     map[string]int{"C07 prepares judged": 500, "C07 leader proposals judged": 200, "adv forgedNV": 1000},
 		Judged:     []string{"C07 prepares judged", "C07 adoptions judged", "C07 leader proposals judged", "C07 leader proposals with a certified block judged"},
-		Extra:      scriptedBare("C07")})
+		Extra: func(run *harness.Run) ([]harness.Finding, map[string]interface{}, []string) {
+			fs, ev, inc := scriptedBare("C07")(run)
+			// real runtime: the validation of a NEW_VIEW's fresh block is overtaken by the node's own election trigger or a sync;
+			// a validation that ended under the cancelled context must not lead to the proposal being adopted
+			rfs, rev, rinc := rtPart(run, "ctx", 64, 3000, map[string]int{"C07 cancelled validations judged": 10})
+			ev["rt_ctx"] = rev
+			return append(fs, rfs...), ev, append(inc, rinc...)
+		}})
 	reg(&sim.SimCheck{Prop: "C08", Workload: "c08", Profile: withOpts(advProfile(merge(map[string]int{"barePP": 5}, map[string]int{"mutate": 60, "outsider": 15, "vcGames": 12, "hugeView": 8, "twistedNV": 8, "support": 10}), 400, 3), func(p *sim.Profile) {
 		// a third of the cases with the main-loop -> worker hand-off split in two steps and more node syncs: messages then also
 		// meet a node between two heights (committees differ between heights)
@@ -106,7 +113,12 @@ func init() {
 		},
 		Rule:   "adversarial cases aimed at poisoning what correct nodes later emit; every delivery of a correct node's NEW_VIEW / VIEW_CHANGE / PREPARE / COMMIT to a correct peer that meets the stated precondition is judged for acceptance; non-trivial = a NEW_VIEW delivery was judged in a case with adversarial deliveries",
 		Floors: map[string]int{"C11 judged NEW_VIEW": 1000, "C11 judged VIEW_CHANGE": 3000, "C11 judged PREPARE": 3000, "C11 judged COMMIT": 3000},
-		Judged: []string{"C11 judged NEW_VIEW", "C11 judged VIEW_CHANGE", "C11 judged PREPARE", "C11 judged COMMIT", "C11 NV precondition unmet", "C11 VC precondition unmet", "C11 P precondition unmet"}})
+		Judged: []string{"C11 judged NEW_VIEW", "C11 judged VIEW_CHANGE", "C11 judged PREPARE", "C11 judged COMMIT", "C11 NV precondition unmet", "C11 VC precondition unmet", "C11 P precondition unmet"},
+		Extra: func(run *harness.Run) ([]harness.Finding, map[string]interface{}, []string) {
+			// real runtime: a leader whose proposal request is cancelled (and returns no block) must not announce the view
+			fs, ev, inc := rtPart(run, "ctx", 64, 3000, map[string]int{"C15 leave stimuli judged": 20})
+			return fs, map[string]interface{}{"rt_ctx": ev}, inc
+		}})
 	reg(&sim.SimCheck{Prop: "C05", Workload: "c05", Profile: func(th bool) *sim.Profile {
 		p := advProfile(merge(noBare, map[string]int{"vcGames": 25, "support": 15, "outsider": 8, "hugeView": 6, "garbage": 4, "mutate": 20}), 300, 2)(th)
 		p.Tail = true
